@@ -67,8 +67,7 @@ Record packet := mk_packet {
   p_key : fkey;
   p_dscp : N;
   p_mac : N;            (* source MAC, 0 on L3 links *)
-  p_syn : bool; p_ack : bool; p_fin : bool; p_rst : bool;
-  p_sock_v4 : bool      (* the parsed ethertype is IPv4 (shape of the local-socket probe; not used by verdicts) *)
+  p_syn : bool; p_ack : bool; p_fin : bool; p_rst : bool
 }.
 Definition p_new (p : packet) : bool := p_syn p && negb (p_ack p).
 Definition p_finrst (p : packet) : bool := p_fin p || p_rst p.
@@ -115,22 +114,23 @@ Record fentry := mk_fentry {
   fe_wan_in : bool; fe_closing : bool; fe_last : N;
   fe_dec : option decision; fe_dscp : N; fe_mac : N; fe_pname : N; fe_pid : N }.
 Definition ftab := list (fkey * fentry).
-Fixpoint tab_get (t : ftab) (k : fkey) : option fentry :=
+Fixpoint tab_get {V} (t : list (fkey * V)) (k : fkey) : option V :=
   match t with [] => None | (a, v) :: r => if fkey_eqb a k then Some v else tab_get r k end.
-Fixpoint tab_del (t : ftab) (k : fkey) : ftab :=
+Fixpoint tab_del {V} (t : list (fkey * V)) (k : fkey) : list (fkey * V) :=
   match t with [] => [] | (a, v) :: r => if fkey_eqb a k then tab_del r k else (a, v) :: tab_del r k end.
-Fixpoint tab_set (t : ftab) (k : fkey) (v : fentry) : ftab :=
+Fixpoint tab_set {V} (t : list (fkey * V)) (k : fkey) (v : V) : list (fkey * V) :=
   match t with
   | [] => [(k, v)]
   | (a, w) :: r => if fkey_eqb a k then (a, v) :: r else (a, w) :: tab_set r k v
   end.
 
+Definition exceeds (x lim : N) : bool := lim <? x.
 Definition age (now last : N) : N := (now + TWO64 - last mod TWO64) mod TWO64.
 Definition tcp_expired (en : fentry) (now : N) : bool :=
-  age now (fe_last en) >? (if fe_closing en then DOC_TCP_CLOSING_NS else DOC_TCP_IDLE_NS).
-Definition udp_expired (en : fentry) (now : N) : bool := age now (fe_last en) >? DOC_UDP_IDLE_NS.
+  exceeds (age now (fe_last en)) (if fe_closing en then DOC_TCP_CLOSING_NS else DOC_TCP_IDLE_NS).
+Definition udp_expired (en : fentry) (now : N) : bool := exceeds (age now (fe_last en)) DOC_UDP_IDLE_NS.
 Definition refreshed (en : fentry) (now : N) : fentry :=
-  if age now (fe_last en) >? DOC_REFRESH_NS
+  if exceeds (age now (fe_last en)) DOC_REFRESH_NS
   then mk_fentry (fe_wan_in en) (fe_closing en) now (fe_dec en) (fe_dscp en) (fe_mac en) (fe_pname en) (fe_pid en)
   else en.
 Definition closing (en : fentry) : fentry :=
@@ -194,7 +194,7 @@ Definition spec_lan_ingress (P : param) (e : env) (t : ftab) (p : packet) : verd
   | PMalformed => (Drop, t)
   | PIgnored => (Pass None, t)
   | PTcp =>
-      match tcp_track t k p false (e_now e) (if p_new p then p_dscp p else 0) 0 with
+      match tcp_track t k p false (e_now e) (p_dscp p) 0 with
       | (None, t1) => (Pass None, t1)                       (* untracked, not a SYN *)
       | (Some en, t1) =>
           if p_new p then
@@ -238,7 +238,10 @@ Definition spec_lan_ingress (P : param) (e : env) (t : ftab) (p : packet) : verd
 Definition needs_record (d : decision) : bool :=
   negb ((d_out d =? OUT_DIRECT) && (d_mark d =? 0) && (d_must d =? 0)).
 
-Definition spec_wan_egress (P : param) (e : env) (t : ftab) (p : packet) : verdict * ftab :=
+(* [strict = true] is the property as written: every decision of a tracked flow is remembered.
+   [strict = false] is the datapath as built: a locally originated UDP flow decided "direct, no mark, not
+   must" is tracked but its decision is not stored, so it is routed afresh by every later packet. *)
+Definition spec_wan_egress (strict : bool) (P : param) (e : env) (t : ftab) (p : packet) : verdict * ftab :=
   let k := p_key p in
   if negb (e_ingress_if e =? 0) then (Pass None, t)         (* forwarded, not locally originated *)
   else
@@ -257,8 +260,7 @@ Definition spec_wan_egress (P : param) (e : env) (t : ftab) (p : packet) : verdi
                             then mk_fentry false false (e_now e) (Some d) (p_dscp p) (p_mac p)
                                            (match e_proc e with Some (_, nm) => nm | None => 0 end) pid
                             else en in
-                 (wan_verdict e p d (mk_frec d (p_dscp p) (p_mac p) (fe_pname en') pid),
-                  tab_set (tab_del t k) k en')
+                 (wan_verdict e p d (rec_of en' d), tab_set (tab_del t k) k en')
              end
       else
         match tcp_track t k p false (e_now e) 0 0 with
@@ -291,13 +293,9 @@ Definition spec_wan_egress (P : param) (e : env) (t : ftab) (p : packet) : verdi
           match dd with
           | None => (Drop, t1)
           | Some (d, mac) =>
-              let en' := if needs_record d then with_decision en d (p_dscp p) mac (e_proc e) else en in
+              let en' := if strict || needs_record d then with_decision en d (p_dscp p) mac (e_proc e) else en in
               let en'' := touched_now en' (e_now e) in
-              (wan_verdict e p d (if needs_record d then rec_of en'' d
-                                  else mk_frec d (p_dscp p) mac
-                                         (match e_proc e with Some (_, nm) => nm | None => fe_pname en end)
-                                         (match e_proc e with Some (pid, _) => pid | None => fe_pid en end)),
-               tab_set t1 k en'')
+              (wan_verdict e p d (rec_of en'' d), tab_set t1 k en'')
           end
   end.
 
@@ -312,4 +310,4 @@ Definition spec_reverse_hook (e : env) (t : ftab) (p : packet) : ftab :=
 (* ---------- what the control plane must be able to recover ---------- *)
 (* the flow's stored record if a decision is stored, else the stateless hand-over record *)
 Definition handoff_live (now last : N) : bool :=
-  if last =? 0 then false else if now <=? last then true else negb (now - last >? DOC_HANDOFF_NS).
+  if last =? 0 then false else if now <=? last then true else negb (exceeds (now - last) DOC_HANDOFF_NS).
